@@ -16,7 +16,7 @@
 //!   c10 crash-child <dir> <tokens...>   (internal) execute the prefix, then abort()
 //!
 //! Schedule tokens: u (update a fresh key), v (raise the value of persisted key 1),
-//! d (remove persisted key 0), a (add key 1: rejected while visible), b (add key 7),
+//! d (remove persisted key 0), a (add key 1: rejected while visible), b (add key 7), e (remove key 7),
 //! f (flush), r (reopen), x (close = drop), W (writer advances to its next point),
 //! ! (the process dies here; last token only).
 //!
@@ -454,7 +454,7 @@ impl Exec {
             'r' => {
                 let _ = self.dict.as_mut().unwrap().reopen();
             }
-            'u' | 'v' | 'd' | 'a' | 'b' => {
+            'u' | 'v' | 'd' | 'a' | 'b' | 'e' => {
                 let d = self.dict.as_mut().unwrap();
                 match tok {
                     'u' => {
@@ -472,6 +472,11 @@ impl Exec {
                     }
                     'a' => {
                         let _ = d.add_phrase(&[key_syllable(1)], Phrase::new(PHRASE, 99));
+                    }
+                    'e' => {
+                        // removes the key `b` adds: a phrase that exists only as a pending entry or in a snapshot
+                        // that is still being written (seeded change C10-E)
+                        let _ = d.remove_phrase(&[key_syllable(7)], PHRASE);
                     }
                     _ => {
                         let _ = d.add_phrase(&[key_syllable(7)], Phrase::new(PHRASE, 5));
@@ -815,7 +820,7 @@ fn random(n: u64, max_ops: usize, out: &str, json: &str) -> i32 {
     let mut st = Stats::default();
     let t0 = Instant::now();
     let seed = vharness::util::seed_from_env();
-    let tr = Tier { max_ops, alphabet: vec!['u', 'v', 'd', 'a', 'b', 'f', 'r'], crash: false };
+    let tr = Tier { max_ops, alphabet: vec!['u', 'v', 'd', 'a', 'b', 'e', 'f', 'r'], crash: false };
     for case in 0..n {
         let mut rng = vharness::util::Rng::new(seed.wrapping_mul(0x9E37_79B9).wrapping_add(case));
         let mut e = Exec::new(fresh_dir(&base, "run"));
